@@ -304,6 +304,9 @@ def run_shard(spec_, res):
         bfs(res, spec_["n"], spec_["depth"], tuple(spec_["slice"]), rng, spec_.get("sample_last"))
     else:
         random_sequences(res, rng, spec_["n_seq"], spec_["max_n"], spec_["max_len"])
+    if spec_["tier"] == "thorough" and spec_["part"] == "bfs" and spec_["n"] == 3 and spec_["slice"][0] == 0:
+        from ._repo_suite import ambient_under_repo_tests
+        ambient_under_repo_tests(res, PROPERTY, ["links_consistent"])
     for name, msg in monitors.take_failures():
         res.violation(f"C07:ambient:{name}", msg, {"monitor": name})
     res.count("ambient_contract_evaluations", monitors.COUNTERS.get("links_consistent.evaluations", 0))
